@@ -90,6 +90,15 @@ def queries(d, n=3):
 
 PREFIX_QUERIES = ["", "a", "A", "x", "X", "z", "B", "a ", "ax"]
 IDENTIFIERS = ["", "1", "x", ":", "/", "1:2", "a:1", " ", "y", "Xa"]   # the last two matter to the identifier hook of the subclass runs
+_EXTRA = {"p": [], "i": []}     # set while a sweep case runs: the registered prefixes (+ near-miss variants) and token identifiers
+
+
+def prefix_queries():
+    return PREFIX_QUERIES + [p for p in _EXTRA["p"] if p not in PREFIX_QUERIES]
+
+
+def identifiers():
+    return IDENTIFIERS + [i for i in _EXTRA["i"] if i not in IDENTIFIERS]
 
 
 def build_merge_late(recs, delim, probe=None):
@@ -133,9 +142,30 @@ def dip_configs():
     ]
 
 
+def sweep_units(tier):
+    """Breadth sweeps (mc/sweeps.py): every token in every string role, twin names, realistic URL prefixes."""
+    from .. import sweeps
+
+    out = []
+    for toks in chunks(list(sweeps.TOKENS), 12):
+        out.append({"tier": tier, "kind": "sweep", "cases": [{"recs": recs_to_json(sweeps.token_config(t)), "delim": ":", "tokens": [t]} for t in toks]})
+    tw = sweeps.twin_configs()
+    for ch in chunks(tw, 4):
+        out.append({"tier": tier, "kind": "sweep", "cases": [{"recs": recs_to_json(c), "delim": ":", "tokens": []} for c in ch]})
+    real = list(sweeps.REALISTIC)
+    cases = [{"recs": recs_to_json(real), "delim": ":", "tokens": [], "idents": sweeps.REALISTIC_IDENTS},
+             {"recs": recs_to_json(real[::-1]), "delim": ":", "tokens": [], "idents": sweeps.REALISTIC_IDENTS}]
+    for i in range(len(real)):
+        cases.append({"recs": recs_to_json(real[:i] + real[i + 1:]), "delim": ":", "tokens": [], "idents": sweeps.REALISTIC_IDENTS[:6]})
+    for ch in chunks(cases, 3):
+        out.append({"tier": tier, "kind": "sweep", "cases": ch})
+    return out
+
+
 def units(tier, seed, nchunks=128, hist_depth=None, delim_in_prefix=False, hook=False):
     cfgs = configurations(tier)
     out = [{"tier": tier, "cfgs": [recs_to_json(c) for c in ch]} for ch in chunks(cfgs, nchunks)]
+    out.extend(sweep_units(tier))
     # a small configuration set under unusual delimiters
     r0, r1, _ = record_pool()
     small = [[r] for r in r0 if "a" not in r.prefix] + [[a, b] for a, b in it.combinations([r for r in r0 if r.prefix in ("", "x") and r.uri_prefix in ("x", "x:", "xy", "a:", "a:x")], 2) if Model([a, b]).valid()]
@@ -230,7 +260,16 @@ def run_case(check_config, case, ctx=None):
     d = case["delim"]
     recs = rewrite(recs_from_json(case["recs"]), d)
     model = Model(recs, d)
-    Q = queries(d, case.get("qlen", 3))
+    if "tokens" in case:
+        from .. import sweeps
+
+        Q = sweeps.config_queries(model, case["tokens"], case.get("idents", sweeps.IDENTS))
+        regs = sorted(model.all_prefixes())
+        _EXTRA["p"] = list(dict.fromkeys(regs + [v for p in regs for v in sweeps.variants(p)]))
+        _EXTRA["i"] = list(dict.fromkeys(list(case.get("idents", sweeps.IDENTS)) + [i for t in case["tokens"] for i in (t, "1" + t)]))
+    else:
+        Q = queries(d, case.get("qlen", 3))
+        _EXTRA["p"], _EXTRA["i"] = [], []
     modes = [case["mode"]] if case.get("mode") else ["ctor", "merge-late", "chain-of-singletons", "sub-by-synonym", "shared-list"] + (["subclass-hook"] if case.get("hook") else [])
     for mode in modes:
         if mode == "merge-late" and not any(r.psyn or r.usyn for r in recs):
@@ -294,6 +333,15 @@ def run_case(check_config, case, ctx=None):
 
 
 def run_unit_with(check_config, prop, unit, ctx):
+    if unit.get("kind") == "sweep":
+        for case in unit["cases"]:
+            fails = run_case(check_config, case, ctx)
+            ctx.count("sweep_cases")
+            for sig, msg, mode in fails[:2]:
+                c = dict(case)
+                c["mode"] = mode
+                ctx.violation(f"{prop}/{sig}", msg, c)
+        return
     if unit.get("kind") == "hist":
         for case in hist_cases(unit):
             fails = run_hist_case(check_config, case, ctx)
